@@ -72,6 +72,18 @@ claim("C12",
       "Not decided: the observable effect of a setting value on the generated code. Reference tables (level table, key->field table) in checker/c12.go are the documented behaviour; the discrepancy `enum` (documented converter-level, implemented inheritable) is frozen as-is.",
       "static analysis: switch-label tables (AST+constants), composite-literal/assignment wiring, SSA dominance for ordering, error-flow for located errors")
 
+claim("C14",
+      "Decides structural necessary conditions of method.Parse and its users: exactly one role per parameter and one RawArgs entry per parameter in declared order, one emitted parameter per entry; presence and error-return of every "
+      "validation guard before the success return (the result-arity condition is evaluated for 0..4 results); isError = built-in error only; the documented ParseOpts per use site including the context regex of the right level.",
+      "Not decided: the classification as a function over all signature permutations and the run-time routing of arguments. Reference table optsTable in checker/c14.go is the documented behaviour (DESIGN Appendix B2).",
+      "static analysis: AST shape rules with constant evaluation, composite-literal tables resolved through helpers")
+
+claim("C19",
+      "Decides structural necessary conditions of comment recognition: comment text enters only through .Doc of the five declaration kinds; RawLines only from SettingLines(CommentToString(doc of the same declaration)) or -g; "
+      "no reordering between extraction and application; wrong-kind markers are errors checked before use; the `goverter:` prefix test is applied to strings.TrimSpace(line); parse.Command returns the verbatim text after the first space.",
+      "Not decided: CommentToString's treatment of every comment layout (string function over unbounded input). Trusted: go/parser's attachment of doc comments.",
+      "static analysis: field-access inventory over go/ast types, AST origin tracing of doc text, SSA dataflow of the prefix subject and of Command's results")
+
 NOT_APPLICABLE_REASON = "rules for this property are designed (DESIGN.md §2) but the checker code is not built yet in this round; not claimed until it runs"
 
 def main():
